@@ -211,6 +211,9 @@ def simp(t, used, boolargs=False):
         if op in COMMUTATIVE:
             if _key(b) < _key(a):
                 a, b = b, a
+        if op == "^" and ("int", -1) in (a, b):
+            used.add("x ^ -1 -> ~x (two's complement)")
+            return ("un", "~", b if a == ("int", -1) else a)
         # > and >= to < and <= with swapped operands
         if op == ">":
             used.add("a>b -> b<a")
